@@ -716,10 +716,23 @@ func (v *Voter) commit(blockHash, priority common.Hash) {
 	if block == nil {
 		return
 	}
-	v.committed = true
 	// commit
-	chamberPrecommits, _ := v.votesMgr.getVotes(Precommit, blockHash, params.KindChamber)
+	chamberPrecommits, pcount := v.votesMgr.getVotes(Precommit, blockHash, params.KindChamber)
 	housePrecommits, _ := v.votesMgr.getVotes(Precommit, blockHash, params.KindHouse)
+	// The quorum status is latched when it is first reached, but the weight of a sender that
+	// later votes for a second block is removed again. Only announce a commit whose attached
+	// votes still form the quorums every verifier will demand of the header.
+	if !OverThreshold(pcount, v.paramsMgr.CurrentCaravelParams().ValidatorThreshold, true) {
+		return
+	}
+	if v.shouldCert {
+		certCp, err := v.paramsMgr.CertificateParams(v.round)
+		_, ccount := v.votesMgr.getVotes(Certificate, blockHash, params.KindChamber)
+		if err != nil || !OverThreshold(ccount, certCp.CertValThreshold, false) {
+			return
+		}
+	}
+	v.committed = true
 	ev := CommitEvent{
 		Round:             v.round,
 		RoundIndex:        v.roundIndex,
